@@ -53,6 +53,12 @@ def set_unit(tu):
             hit = [f for f in c.get("fields", ()) if pred(f)]
             if len(hit) == 1:
                 DYN_G[erase(hit[0]["q"])] = why
+    # members the unlocked queries may read on the strength of being atomic: declared as a plain object they are
+    # ordinary shared state (a write under the lock does not make an unlocked read of a non-atomic race-free)
+    for c in tu.classes.values():
+        for f in c.get("fields", ()):
+            if erase(f["q"]) in ATOMIC and not re.search(r"\batomic<", f.get("t", "")):
+                DYN_G[erase(f["q"])] = "flag read by the unlocked queries; it is not declared atomic"
 
 
 def g_class(field):
@@ -167,11 +173,31 @@ def classify_field(field):
         return "container"
     if CUR_TU[0] is not None and fe in (lib.peer_roles(CUR_TU[0]).get("seq_ref"), lib.peer_roles(CUR_TU[0]).get("handler_ref")):
         return "publish-immutable"     # set once in the handle's constructor
+    ft = _field_type(fe)
+    if ft is not None and re.search(r"\batomic<", ft):
+        return "atomic"                # by its declared type, whatever it is called
+    if fe in ATOMIC:
+        # read by the unlocked queries on the strength of being atomic: as a plain object it is ordinary shared state
+        return "G"
     for name, tab in (("publish-immutable", PUBLISH_IMMUTABLE), ("container", CONTAINER),
-                      ("builder-pointer", BUILDER_POINTER), ("atomic", ATOMIC), ("local", LOCAL)):
+                      ("builder-pointer", BUILDER_POINTER), ("local", LOCAL)):
         if fe in tab:
             return name
     return None
+
+
+def _field_type(fe):
+    tu = CUR_TU[0]
+    if tu is None:
+        return None
+    cache = getattr(tu, "_c12_ftypes", None)
+    if cache is None:
+        cache = {}
+        for c in tu.classes.values():
+            for f in c.get("fields", ()):
+                cache.setdefault(erase(f["q"]), f.get("t", ""))
+        tu._c12_ftypes = cache
+    return cache.get(fe)
 
 
 # ----------------------------------------------------------------------------- intraprocedural flow
